@@ -36,6 +36,17 @@
 (*               (HRead, HStat)                                            *)
 (*   get         ManifestGet: one critical section (GRead, GFile)          *)
 (*   list        ocidir/tag.go:TagList: one readIndex                      *)
+(*   gc          scheme/ocidir/close.go:Close (RegClient.Close), one       *)
+(*               critical section: skipped unless the layout was modified  *)
+(*               through this client (mod = modRefs[..].mod, set by        *)
+(*               refMod at the end of manifestPut / tagDelete /            *)
+(*               ManifestDelete); mark = the digests the index lists       *)
+(*               (GcRead: readIndex + closeProcManifest; the pool's        *)
+(*               manifests have no children), sweep = every file under     *)
+(*               blobs/ that is not marked is removed (GcSweep); the       *)
+(*               reference model loses the manifests swept (TagsMap gc:    *)
+(*               none a tag points at may go).  On a registry Close does   *)
+(*               nothing (scheme reg has no Closer).                       *)
 (* conf.init names the initial content (InitIdx; the same names and the    *)
 (* same entries as the table `inits` of harness/cmd/c06drv), including     *)
 (* indexes written by other tools.                                         *)
@@ -53,12 +64,18 @@
 (*             only before the DELETE; now once more after the 202         *)
 (*   "head"    before 9cfa5d9: ocidir.ManifestHead stats the file outside  *)
 (*             the mutex; now the mutex is held over index read and stat   *)
+(*   "gc"      not a past state of the code but the neighbouring design    *)
+(*             "Close holds o.mu for its bookkeeping and inside the        *)
+(*             self-locking readers only" (seeded/C06-10): a push that     *)
+(*             completes between mark and sweep loses its manifest file    *)
+(*             (C06_mc_gc_unlocked.cfg must keep showing it)               *)
 (*                                                                         *)
 (* Deliberate deviations: blob uploads of the fall-back and reghttp        *)
 (* retries are not modelled; placeholder digests are fresh values (the     *)
 (* code derives them from time.Now(), assumed distinct per call); the      *)
 (* cache never expires or evicts within a run; no referrers (the pool's    *)
-(* manifests have no subject); layout GC (Close) is not run; UseMutex =    *)
+(* manifests have no subject); blobs other than manifests are not modelled; *)
+(* UseMutex =                                                               *)
 (* FALSE removes o.mu and FreshPH = FALSE the uniqueness of placeholders,  *)
 (* to show that both are load-bearing (expected counterexamples).          *)
 (* conf.warm: the manifest cache already holds what the registry stores    *)
@@ -90,11 +107,12 @@ CONSTANTS Procs,     \* client goroutines
 VARIABLES conf,
           rtags, rmans, nph,          \* registry: tag map, manifests, placeholders made so far
           index, files, marker, mu,   \* layout: entries, manifest files, oci-layout, mutex holder
+          mod,                        \* layout: modified through this client since the last collection (modRefs)
           cache,                      \* client: digests in the manifest cache
           pc, cur, loc, nops,         \* per goroutine: parked at, operation, locals, ops started
           atags, amans, aamb,         \* reference model (refinement witness)
           viol                        \* first answer the reference model forbids
-vars == <<conf, rtags, rmans, nph, index, files, marker, mu, cache, pc, cur, loc, nops,
+vars == <<conf, rtags, rmans, nph, index, files, marker, mu, mod, cache, pc, cur, loc, nops,
           atags, amans, aamb, viol>>
 
 NoOp == [k |-> "", t |-> "", m |-> ""]
@@ -104,7 +122,7 @@ Alphabet ==
   \cup {Op(k, "", m) : k \in {"pushd", "mdel", "mdelr"}, m \in OpMans}
   \cup {Op(k, t, "") : k \in {"head", "get"}, t \in OpTags}
   \cup {Op(k, "", m) : k \in {"head", "get"}, m \in OpMans}
-  \cup {Op("list", "", "")}
+  \cup {Op("list", "", ""), Op("gc", "", "")}
 Ops == {o \in Alphabet : o.k \in OpKinds}
 
 IdleLoc == [acc |-> <<>>, last |-> "", ph |-> "", lidx |-> <<>>, d |-> "", must |-> {}, may |-> {},
@@ -201,7 +219,7 @@ Lin(o) == /\ atags' = MTags(atags, o.k, o.t, o.m)
           /\ aamb' = IF o.k \in {"push", "tagdel"} THEN [aamb EXCEPT ![o.t] = {}] ELSE aamb
 NoLin == UNCHANGED <<atags, amans, aamb>>
 RegUnch == UNCHANGED <<rtags, rmans, nph>>
-LayUnch == UNCHANGED <<index, files, marker, mu>>
+LayUnch == UNCHANGED <<index, files, marker, mu, mod>>
 \* an error is justified only if the reference model has no target (or cannot know: ambiguous tag)
 Unjust(o) == MPresent(atags, amans, o.k, o.t, o.m) /\ ~(o.k = "tagdel" /\ aamb[o.t] # {})
 
@@ -215,6 +233,7 @@ Init ==
   /\ files = IF conf.backend = "layout" THEN InitFiles(conf.init) ELSE {}
   /\ marker = (conf.backend = "layout" /\ conf.init # "nodir")
   /\ mu = NONE
+  /\ mod = (conf.backend = "layout" /\ conf.mod)
   \* conf.warm: the driver looked at every digest first, the cache holds what is stored
   /\ cache = IF conf.backend = "reg" /\ conf.cache /\ conf.warm THEN InitFiles(conf.init) ELSE {}
   /\ pc = [p \in Procs |-> "idle"]
@@ -253,6 +272,9 @@ RegStart(p, o) ==
                  \* (a stale answer here needs a stale cache: invariant CacheCoherent)
                  /\ UNCHANGED <<pc, cur, cache, loc, viol>>
             ELSE /\ Go(p, o, IF o.k = "head" THEN "HEAD" ELSE "GET") /\ UNCHANGED <<cache, loc, viol>>
+       [] o.k = "gc" ->
+            \* RegClient.Close: scheme reg is no Closer, nothing happens
+            /\ UNCHANGED <<pc, cur, cache, loc, viol>>
        [] o.k = "list" ->
             /\ Go(p, o, "LIST")
             /\ loc' = [loc EXCEPT ![p] = [IdleLoc EXCEPT !.must = SListed(rtags), !.may = SListed(rtags)]]
@@ -359,19 +381,26 @@ ReadOK == marker
 
 LayStart(p, o) ==
   /\ conf.backend = "layout"
-  /\ RegUnch /\ NoLin /\ UNCHANGED <<cache, viol, index, files, marker, mu>>
+  /\ RegUnch /\ NoLin /\ UNCHANGED <<cache, viol, index, files, marker, mu, mod>>
   /\ cur' = [cur EXCEPT ![p] = o]
   /\ pc' = [pc EXCEPT ![p] = CASE o.k \in {"push", "pushd"} -> "PUTFILE"
                                 [] o.k = "tagdel" -> "TDREAD"
                                 [] o.k \in {"mdel", "mdelr"} -> "MDGET"
                                 [] o.k = "head" -> "HREAD"
                                 [] o.k = "get" -> "GREAD"
+                                [] o.k = "gc" -> "GCREAD"
                                 [] OTHER -> "LLIST"]
   /\ loc' = [loc EXCEPT ![p] = [IdleLoc EXCEPT !.seen = AnsSet(atags, amans, aamb, RefOf(o))]]
 
 LayStep(p) ==
   /\ conf.backend = "layout"
   /\ RegUnch /\ UNCHANGED cache
+  \* refMod at the successful end of manifestPut, tagDelete, ManifestDelete; Close clears the entry
+  /\ mod' = CASE pc[p] = "PUTWRITE" -> TRUE
+             [] pc[p] = "TDWRITE" /\ Len(TagDelIdx(loc[p].lidx, cur[p].t, "layout" \in conf.old)) # Len(loc[p].lidx) -> TRUE
+             [] pc[p] = "MDFILE" /\ cur[p].m \in files -> TRUE
+             [] pc[p] = "GCSWEEP" -> FALSE
+             [] OTHER -> mod
   /\ LET o == cur[p] IN
      CASE pc[p] = "PUTFILE" ->
             \* lock, initIndex (creates the marker when missing), manifest file written (tmp + rename)
@@ -474,6 +503,25 @@ LayStep(p) ==
             /\ NoLin /\ UNCHANGED <<index, files, marker, mu>> /\ Return(p)
             /\ loc' = [loc EXCEPT ![p] = IdleLoc]
             /\ viol' = Flag(got \ amb # MListed(atags) \ amb, "list-differs")
+       [] pc[p] = "GCREAD" ->
+            \* Close: lock, skip unless modified, readIndex + closeProcManifest = the digests the index lists
+            \* ("gc" \in conf.old: the lock is held inside readIndex only)
+            /\ Free(p) /\ NoLin /\ UNCHANGED <<index, files, marker, viol>>
+            /\ IF mod /\ ReadOK
+               THEN /\ (IF "gc" \in conf.old THEN UNCHANGED mu ELSE Lock(p)) /\ Park(p, "GCSWEEP")
+                    /\ loc' = [loc EXCEPT ![p] = [@ EXCEPT !.lidx = index]]
+               ELSE /\ UNCHANGED mu /\ Return(p) /\ loc' = [loc EXCEPT ![p] = IdleLoc]
+       [] pc[p] = "GCSWEEP" ->
+            \* os.ReadDir(blobs/<alg>) + os.Remove of every file not marked; modRefs entry deleted
+            LET keep == {loc[p].lidx[i].d : i \in 1..Len(loc[p].lidx)}
+                nf == files \cap keep IN
+            /\ ("gc" \in conf.old \/ Free(p))
+            /\ (IF "gc" \in conf.old THEN UNCHANGED mu ELSE Unlock)
+            /\ files' = nf /\ UNCHANGED <<index, marker>>
+            /\ amans' = amans \cap nf /\ UNCHANGED <<atags, aamb>>
+            /\ Return(p)
+            /\ viol' = Flag(~MGcOK(atags, amans, amans \cap nf), "gc-lost-tagged")
+            /\ loc' = Locs(p, IdleLoc, rtags, atags, amans', aamb)
        [] OTHER -> FALSE
 
 ----------------------------------------------------------------------------
@@ -505,7 +553,7 @@ Quiescent == (conf.backend = "reg" /\ AllIdle) =>
 CacheCoherent == cache \subseteq rmans
 \* whenever no critical section is open the index projects onto the reference map
 LayoutGlue == (conf.backend = "layout" /\ (\A p \in Procs : pc[p] \notin
-                 {"PUTREAD", "PUTWRITE", "TDWRITE", "MDREAD", "MDWRITE", "MDFILE"})) =>
+                 {"PUTREAD", "PUTWRITE", "TDWRITE", "MDREAD", "MDWRITE", "MDFILE", "GCSWEEP"})) =>
                 /\ \A t \in Tags : aamb[t] = {} =>
                      /\ Len(Names(index, t)) <= 1
                      /\ atags[t] = NONE <=> Len(Names(index, t)) = 0
